@@ -92,7 +92,7 @@ is_ipv6 (const char *start, const char *end)
                 return (YES);
         case '.':
             /* Terminate the loop. */
-            if (field < 2 || field > 6) {
+            if (field < 2 || field > 6 || (null_field == 0 && field != 6)) {
                 /* malformed IPv4-in-IPv6 address */
                 return (NO);
             }
@@ -135,6 +135,14 @@ is_ipv6 (const char *start, const char *end)
         } break;
         } /* switch */
     } /* for (;;) */
+
+    /* the address is delimited by `end': same checks as for `case 0' */
+    if (field < 2)
+        return (NO);
+    if (len == 0 && null_field != field - 1)
+        return (NO);
+    if (null_field == 0 && field != 7)
+        return (NO); /* 8 groups are required when there is no `::' */
 
     return (YES);
 }
